@@ -726,6 +726,14 @@ def projectRoute (s : Section) (rt : Nat) : Section :=
       | o :: r :: rest => if r.toNat? = some rt then some { l with op := o :: rest } else none
       | _ => none }
 
+/-- several Pools in one section: the lines of pool `i` plus EVERY `t+` line (the virtual clock is process-wide:
+time passes for all pools whichever instance the op was addressed to). -/
+def projectPool (s : Section) (i : Nat) : Section :=
+  { s with lines := s.lines.filterMap fun l =>
+      match l.op with
+      | o :: r :: rest => if r.toNat? = some i ∨ o = "t+" then some { l with op := o :: rest } else none
+      | _ => none }
+
 /-- no limit configured (middleware off or `MaxConns <= 0`): every request is admitted. -/
 def runUnlimited (r : Report) (s : Section) : Report := Id.run do
   let mut r := r
@@ -820,6 +828,7 @@ def runOptSeq (r : Report) (s : Section) (lib : String) : Report := Id.run do
       else
         let cls := optClass opts
         r := r.addCover s!"{lib}opts-{cls}"
+        r := r.addCover s!"{lib}opts-api-{(kv? l.op "api").getD "?"}"
         if opts.length ≥ 2 then r := r.addCover s!"{lib}opts-several-options-in-one-list"
         if opts.any (fun o => match o with | .withWorkers k => k < 1 | _ => false) then r := r.addCover s!"{lib}opts-withworkers-below-min"
         for b in before.eraseDups do
@@ -854,6 +863,15 @@ def runSection (r : Report) (s : Section) : Report :=
     match (kv? s.cfg "ns").bind parseNs with
     | none => r.mismatch s.idx 0 "cfg ns=<n0>,<n1>,…" (joinSp s.cfg)
     | some ns =>
+      if kind = "pool" ∧ mode = "seq" then Id.run do
+        -- several Pools alive at once (equal and different limits, one clock): each against its own limit
+        let mut r := r.addCover "pool-several-instances-in-one-section"
+        if ns.eraseDups.length < ns.length then r := r.addCover "pool-instances-with-equal-limit"
+        for (n, i) in ns.zipIdx do
+          if n ≤ 0 then r := r.mismatch s.idx 0 "n >= 1" (joinSp s.cfg)
+          else r := runPoolSeq r (projectPool s i) n.toNat (kvNat s.cfg "maxage" 0)
+        return r
+      else
       if mode ≠ "seq" ∨ !(semKinds.contains kind) then r.mismatch s.idx 0 "ns= only for sequential semaphore kinds" (joinSp s.cfg)
       else Id.run do
         let mut r := r.addCover s!"{kind}-several-instances-in-one-section"
